@@ -956,10 +956,8 @@ Lemma qpos_length c : length (qpos c) = length (filter dq_is_qpd c).
 Proof.
   unfold qpos. induction c as [|x r IH]; [reflexivity|].
   change (length (x :: r)) with (S (length r)). rewrite <- cons_seq, <- seq_shift.
-  cbn [filter nth]. rewrite filter_map_S_length.
-  assert (E : filter (fun k => dq_is_qpd (nth (S k) (x :: r) DOther)) (seq 0 (length r))
-              = filter (fun k => dq_is_qpd (nth k r DOther)) (seq 0 (length r))) by reflexivity.
-  destruct (dq_is_qpd x); simpl; rewrite E, IH; reflexivity.
+  cbn [filter nth].
+  destruct (dq_is_qpd x); cbn [length]; rewrite filter_map_S_length; cbn beta iota; rewrite IH; reflexivity.
 Qed.
 Lemma qpos_in c k b n bid : nth_error c k = Some (DQ b n bid) -> In k (qpos c).
 Proof.
